@@ -275,6 +275,8 @@ class Replacer:
 
     def __init__(self, base):
         self.base = self.extract_base(base)
+        # path and query of the sheet itself
+        _, _, self.path, self.query, _ = urllib.parse.urlsplit(base)
 
     def __call__(self, uri):
         scheme, location, path, query, fragment = urllib.parse.urlsplit(uri)
@@ -282,11 +284,16 @@ class Replacer:
             # keep anything absolute
             return uri
 
-        path, filename = os.path.split(path)
-        combined = os.path.normpath(os.path.join(self.base, path, filename))
-        if filename in ('', '.', '..') and not combined.endswith('/'):
-            # normpath drops what says that a directory is meant
-            combined += '/'
+        if not path:
+            # nothing or only a query or fragment: refers to the sheet itself
+            combined = self.path
+            query = query or self.query
+        else:
+            path, filename = os.path.split(path)
+            combined = os.path.normpath(os.path.join(self.base, path, filename))
+            if filename in ('', '.', '..') and not combined.endswith('/'):
+                # normpath drops what says that a directory is meant
+                combined += '/'
         # quote like pathname2url but keep escapes which are present already
         # and the characters RFC 3986 allows in a path unescaped
         path = urllib.parse.quote(
